@@ -36,7 +36,15 @@ func (m *F84Model) Distance(seq1 []uint8, seq2 []uint8, weights []float64) (floa
 	var dist float64
 
 	trS, trV, _, _, total := countMutations(seq1, seq2, m.selectedSites, weights)
+	if trS == 0 && trV == 0 && total > 0 {
+		// No difference (also when a is 0/0, i.e. no purine or no pyrimidine in the alignment)
+		return 0, nil
+	}
 	trS, trV = trS/total, trV/total
+	if 1.0-trS/(2.0*m.a)-(m.a-m.b)*trV/(2.0*m.a*m.c) < 0 || 1-trV/(2.0*m.c) < 0 {
+		// Saturation: the distance is not defined, with or without gamma
+		return math.NaN(), nil
+	}
 	if m.gamma {
 		dist = 2.0 * m.alpha * (m.a*math.Pow((1.0-trS/(2.0*m.a)-(m.a-m.b)*trV/(2.0*m.a*m.c)), -1./m.alpha) +
 			(m.b+m.c-m.a)*math.Pow((1-trV/(2.0*m.c)), -1./m.alpha) -
